@@ -67,8 +67,12 @@ def stmt(k, labmap):
     return PREFIX[p] + BODIES[b].format(**labmap)
 
 
-def newick_doc(seq):
-    return "\n".join(stmt(k, LAB) + ";" for k in seq) + "\n"
+def newick_doc(seq, labmap=None):
+    return "\n".join(stmt(k, labmap or LAB) + ";" for k in seq) + "\n"
+
+
+# integer tip labels that do not appear in the order 1, 2, 3, ... (simulator-style output): a label must never be read as a taxon NUMBER in plain Newick
+NUMLAB = [{"A": "2", "B": "5", "C": "1", "D": "7"}, {"A": "3", "B": "1", "C": "4", "D": "2"}]
 
 
 TRANSLATE = [
@@ -79,7 +83,10 @@ CHARBLOCK = ("BEGIN CHARACTERS;\n  DIMENSIONS NCHAR=4;\n  FORMAT DATATYPE=DNA GA
              "    A ACGT\n    B_b A-G?\n    'C c' {AC}CGT\n    D ACGN\n  ;\nEND;\n")
 
 
-def nexus_doc(blocks, taxa, chars, between=0):
+SETSBLOCK = "BEGIN SETS;\n  CHARSET first = 1-2;\n  CHARSET second = 3 4;\n  CHARSET everything = ALL;\nEND;\n"
+
+
+def nexus_doc(blocks, taxa, chars, between=0, sets=False):
     """blocks: list of (seq of pool indices, translate index or None)
     between: what stands between consecutive TREE statements -- 0 nothing, 1 a plain and a metadata
     comment, 2 a statement the reader does not interpret (UTREE) followed by such comments"""
@@ -89,6 +96,8 @@ def nexus_doc(blocks, taxa, chars, between=0):
     for bi, (seq, tr) in enumerate(blocks):
         if chars and bi == 1:
             out.append(CHARBLOCK)
+            if sets:
+                out.append(SETSBLOCK)
         out.append("BEGIN TREES;\n")
         if bi == 1:
             out.append("  [block comment]\n")
@@ -105,6 +114,8 @@ def nexus_doc(blocks, taxa, chars, between=0):
         out.append("END;\n")
     if chars and len(blocks) == 1:
         out.append(CHARBLOCK)
+        if sets:
+            out.append(SETSBLOCK)
     return "".join(out)
 
 
@@ -132,6 +143,13 @@ def corpus(tier, rng):
     docs = []
     for s in seqs(3, full):
         docs.append(dict(schema="newick", name="newick:" + "".join(map(str, s)), text=newick_doc(s), sizes=[len(s)]))
+    for j, s in enumerate(seqs(2, True)):
+        if 4 in s or 7 in s:   # pool statements 4 / 7 carry annotations inside the tree body; not needed here
+            continue
+        for m, lm in enumerate(NUMLAB):
+            if not full and (j + m) % 3:
+                continue
+            docs.append(dict(schema="newick", name="newick:%s/numeric-labels%d" % ("".join(map(str, s)), m), text=newick_doc(s, lm), sizes=[len(s)]))
     one = seqs(3, full)
     two = seqs(2, True)
     k = 0
@@ -153,6 +171,13 @@ def corpus(tier, rng):
                                  text=nexus_doc([(s, tr)], True, chars=False, between=between), sizes=[len(s)]))
                 docs.append(dict(schema="nexus", name="nexus:%s+%s/tr%s/between%d" % ("".join(map(str, s)), "".join(map(str, s[::-1])), tr, between),
                                  text=nexus_doc([(s, tr), (s[::-1], None)], j % 2 == 0, chars=False, between=between), sizes=[len(s), len(s)]))
+    # a SETS block (character sets, one of them `ALL`) between the characters and a later TREES block whose statements use hyphens (1e-2)
+    for j, s in enumerate(two):
+        if not full and j % 4:
+            continue
+        for tr in (None, 0):
+            docs.append(dict(schema="nexus", name="nexus:%s+%s/tr%s/sets" % ("".join(map(str, s)), "".join(map(str, s[::-1])), tr),
+                             text=nexus_doc([(s, tr), ((2,) + tuple(s[::-1]), None)], True, chars=True, sets=True), sizes=[len(s), len(s) + 1]))
     pairs = [(a, b) for a in two for b in two]
     if not full:
         pairs = [p for i, p in enumerate(pairs) if i % 29 == 0]
